@@ -95,3 +95,76 @@ theorem itoa_len (k n : Nat) (h : n < 10 ^ (k + 1)) (hl : k = 0 ∨ 10 ^ k ≤ n
   simpa [itoa] using this
 
 end Proofs.Tie
+
+namespace Proofs.Tie
+
+/-! ### loops with early return: `List.foldl (fun st x => st.or (body x)) none l` -/
+
+theorem foldl_or_some {α β : Type} (p : α → Option β) (r : β) (l : List α) :
+    List.foldl (fun st x => Option.or st (p x)) (some r) l = some r := by
+  induction l with
+  | nil => rfl
+  | cons a l ih => simpa using ih
+
+/-- the scan returns nothing exactly when no element makes the body return -/
+theorem foldl_or_isNone {α β : Type} (p : α → Option β) (l : List α) :
+    (List.foldl (fun st x => Option.or st (p x)) none l).isNone = l.all (fun x => (p x).isNone) := by
+  induction l with
+  | nil => rfl
+  | cons a l ih =>
+    simp only [List.foldl_cons, List.all_cons, Option.none_or]
+    cases h : p a with
+    | none => simpa using ih
+    | some r => rw [foldl_or_some]; simp
+
+/-- what the scan returns was returned by the body for some element -/
+theorem foldl_or_mem {α β : Type} (p : α → Option β) (r : β) : ∀ (l : List α),
+    List.foldl (fun st x => Option.or st (p x)) none l = some r → ∃ x ∈ l, p x = some r
+  | [], h => by simp at h
+  | a :: l, h => by
+    simp only [List.foldl_cons, Option.none_or] at h
+    cases hp : p a with
+    | none =>
+      rw [hp] at h
+      obtain ⟨x, hx, hpx⟩ := foldl_or_mem p r l h
+      exact ⟨x, List.mem_cons_of_mem _ hx, hpx⟩
+    | some r' =>
+      rw [hp, foldl_or_some] at h
+      cases h
+      exact ⟨a, List.mem_cons_self, hp⟩
+
+/-- a function whose loop body only returns non-nil errors returns `nil` after
+the loop exactly when no element made the body return -/
+theorem scan_getD_isNone {α β : Type} (p : α → Option (Option β))
+    (hp : ∀ x r, p x = some r → r.isSome = true) (l : List α) :
+    (Option.getD (List.foldl (fun st x => Option.or st (p x)) none l) (none : Option β)).isNone =
+      l.all (fun x => (p x).isNone) := by
+  rw [← foldl_or_isNone]
+  generalize hst : List.foldl (fun st x => Option.or st (p x)) none l = st
+  cases st with
+  | none => rfl
+  | some r =>
+    obtain ⟨x, _, hx⟩ := foldl_or_mem p r l hst
+    have := hp x r hx
+    cases r with
+    | none => simp at this
+    | some v => rfl
+
+/-- no `/` and no NUL, as a scan -/
+theorem all_no_slash_nul {β : Type} (m1 m2 : β) (l : List UInt8) :
+    (l.all fun x => (if x == (47 : UInt8) then some m1 else if x == (0 : UInt8) then some m2
+      else (none : Option β)).isNone) = (!l.contains 0x2F && !l.contains 0x00) := by
+  induction l with
+  | nil => rfl
+  | cons a l ih =>
+    simp only [List.all_cons, List.contains_cons]
+    rw [ih]
+    by_cases ha : a = 47
+    · subst ha; simp
+    · by_cases hb : a = 0
+      · subst hb; simp
+      · have h47 : ((47 : UInt8) == a) = false := by simpa using fun h => ha h.symm
+        have h0 : ((0 : UInt8) == a) = false := by simpa using fun h => hb h.symm
+        simp [ha, hb, h47, h0]
+
+end Proofs.Tie
